@@ -331,6 +331,19 @@ theorem C11_before_data (env : Env) (world : Nat → Dial) (url : Str) (o : Opts
   | none => rw [hs] at hpol; cases hpol
   | some q => rw [hs] at hpol; cases hpol; rfl
 
+/-- the same as an executable check (the form the oracle applies to the timeline of the *real*
+    code): the Spec's monitor `orderedB` accepts every trace of the model. -/
+theorem C11_before_data_exec (env : Env) (world : Nat → Dial) (url : Str) (o : Opts) (limit : Option Nat)
+    (userSock : Option Sock) (hfd : ¬ (env.tlsEnv.isFile = true ∧ env.tlsEnv.isDir = true)) :
+    orderedB (fun host => tlsPolicy env.sslopt env.tlsEnv host) []
+      (connect env world url o limit userSock {}).trace = true := by
+  apply ordered_imp_orderedB env _ _ [] _ (connect_ordered env world url o limit userSock)
+  intro host p hsp
+  rw [C11_policy env.sslopt env.tlsEnv host hfd] at hsp
+  cases hs : tlsPolicy env.sslopt env.tlsEnv host with
+  | none => rw [hs] at hsp; cases hsp
+  | some q => rw [hs] at hsp; cases hsp; rfl
+
 /-- non-vacuity: a wss connect through a proxy tunnel — CONNECT in the clear, then the wrap, then the
     request; a ws connect is never wrapped. -/
 private def demoEnv (secure : Bool) (tunnel : Bool) : Env :=
